@@ -3,6 +3,10 @@
 import json, subprocess, os
 
 CLAIMS = {
+ "C07": dict(
+  text="Deductive proof that SessionTracker.DecodeSeqNum and EncodeSeqNum equal the fold of the per-update translation functions stepDec/stepEnc over the pending queue (unbounded queue length, all uint32 numbers), that the per-update translations are mutually inverse and yield zero exactly for the expunged / not-yet-announced message (lemmas for every well-formed update and count), and that the ghost folds terminate.",
+  note="Mutex operations are no-ops (sequential reading under the lock). Queue-level composition of the per-update inverse lemmas, Poll and the fan-out in MailboxTracker.queueUpdate are not yet under contract.",
+  design="§6 C07"),
  "C15": dict(
   text="Deductive proof (govc: weakest-precondition VCs over go/ssa of the real code, contracts in internal/imapnum/contracts_verif.go, discharged by z3/cvc5) that Range.Contains/Less/Merge equal their mathematical specification for all uint32 inputs incl. 2^32-1 and '*', that Set.search/Contains/Dynamic are correct on every canonical set (unbounded length), and that Range.append terminates and yields exactly the members in ascending order.",
   note="Trusted: go/ssa + govc translation, solvers. Slice parameters viewed at offset 0; signed int arithmetic mathematical where no overflow obligation is generated. insert/AddRange/Parse/String not yet under contract (listed in evidence as not covered).",
